@@ -239,6 +239,13 @@ func c04Extra(thorough bool) []*Scenario {
 			Requests: []SetReqOrCall{a("leafA", "1"), a("leafA2", "bad"), setReq("T1.sub/leafC=c", upd("T1", "/cont/sub/leafC", "c"))}, Faults: []FaultSpec{faultConnUp("T1")}, FaultBudget: 1},
 		{Name: "S5i Set on T1 connected; the device restarts empty twice; one step held at a store write while another controller runs", Cfg: one, Init: connectAll("T1"),
 			Requests: []SetReqOrCall{a("leafA", "1")}, Faults: []FaultSpec{faultDeviceRestart("T1"), faultConnDown("T1"), faultConnUp("T1")}, FaultBudget: 3, InterleaveBudget: 1},
+		{Name: "S6d leaves applied on T1; a delete of their container that the device refuses, then a Set; connection lost and re-established anywhere", Cfg: one,
+			Init: func(w *World) {
+				connectAll("T1")(w)
+				w.devices["T1"].refuse = map[string]codes.Code{"delete /cont/sub": codes.InvalidArgument}
+			},
+			Prefix:   []func(w *World) *Call{func(w *World) *Call { return w.GoSet(bgCtx(), setReq("T1.leafA=1+sub/leafC=c", upd("T1", "/cont/leafA", "1"), upd("T1", "/cont/sub/leafC", "c")).Set) }},
+			Requests: []SetReqOrCall{setReq("del /cont/sub", del("T1", "/cont/sub")), a("leafA2", "2")}, Faults: []FaultSpec{faultConnDown("T1"), faultConnUp("T1")}, FaultBudget: 2},
 		// split steps: one reconcile call is parked before one of its effects (a store write, a topo write or a device
 		// Set) while the environment and the other controllers move on – a re-synchronisation or an apply that is
 		// overtaken by a restart of the device and a new mastership term – and then continues with what it had read
